@@ -243,3 +243,32 @@ def run(chk):
     _clone_rule(chk, prog)
     _escapes_rule(chk, prog)
     _fmtbuf_rule(chk, prog)
+    _argsync_rule(chk, prog)
+
+
+def _argsync_rule(chk, prog):
+    """The parser keeps its pending values on one argument stack (args / argcount) and records in each open state how
+    many of them belong to it (argn).  parser/state walks the stack backwards by those argn, so the two must move
+    together: a function that resets argcount to a constant has to reset (or rebuild) the per-state counts too."""
+    rule = "C11-ARGSYNC"
+    chk.rule(rule, "a function that resets the parser's argument count also resets the per-state argument counts (argcount and argn stay in step)")
+    n = 0
+    for fn in prog.tus["parse.c"].funcs.values():
+        resets = [x for x in fn.nodes if x.k == "asg" and x.op == "=" and x.kids[0].k == "mem" and x.kids[0].field == "argcount"
+                  and x.kids[0].rec == "JanetParser" and strip_casts(x.kids[1]).v is not None]
+        if not resets:
+            continue
+        chk.analysed(fn)
+        synced = any(x.k == "asg" and x.kids[0].k == "mem" and x.kids[0].field == "argn" for x in fn.nodes) or \
+            any(c.callee in ("pushstate", "_pushstate") for c in fn.calls())
+        for x in resets:
+            n += 1
+            chk.instance(rule)
+            if synced:
+                chk.ok(rule, "%s: `%s` together with the states' argn" % (fn.name, x.text()[:40]))
+            else:
+                chk.violation(rule, "parse.c", fn.name, "argcount-reset", x.loc,
+                              "`%s` empties the argument stack but %s leaves the open states' argn as they were: parser/state then steps "
+                              "`args -= s->argn` below the start of the stack and returns out-of-bounds heap words as :args" % (x.text()[:40], fn.name))
+    if n < 2:
+        raise AnalysisBroken("parse.c: only %d resets of argcount found" % n)
